@@ -14,7 +14,7 @@ from vlib import build, pipeline, tlc
 
 LEVEL = "model_checking"
 SIZES = [1, 2, 8, 127, 128, 129, 255, 256, 257, 300, 384]   # around and at multiples of the 128-byte swap slice
-BIG = ["MAX", "QOV"]
+BIG = ["MAX", "QOV", "WR0", "WR1", "WR3", "MAX", "QOV"]   # "beyond everything", spelt in the ways that make byte counts wrap
 
 
 def prepare(ctx):
@@ -26,7 +26,7 @@ def prepare(ctx):
 # ------------------------------------------------------------------------------------------------ array list
 def idx_tok(i, n):
     if i == -1:
-        return BIG[n % 2]
+        return BIG[n % len(BIG)]
     if i == -2:
         return "QM1"
     return str(i)
@@ -95,8 +95,8 @@ def al_random(rng, nops):
             lines.append("%s %d" % (rng.choice(("POPB", "POPF")), l))
             ln[l] = max(0, ln[l] - 1)
         elif r < 0.27:
-            n = rng.choice([0, 1, 2, ln[l] - 1, ln[l], ln[l] + 1, "MAX"])
-            if n != "MAX":
+            n = rng.choice([0, 1, 2, ln[l] - 1, ln[l], ln[l] + 1] + BIG[:5])
+            if n not in BIG:
                 n = max(0, n)
                 ln[l] = max(0, ln[l] - n)
             else:
